@@ -8,7 +8,7 @@ ASSUMPTIONS = ["_ical_proc depends only on (parser state, completed line): it is
 def ob(n, split, **kw):
     o = dict(name='n%d_split%d' % (n, split), src='h_pull.c', defs=['N=%d' % n, 'SPLIT=%d' % split, 'ECHSE_VERIF_STASH=16U'], units=[],
              incl=['src/evical.c'], replay_units='all', unwind=n + 1, unwindset={'harness.*': 19, 'esccpy_w.*': 19, 'rec_proc.*': 10},
-             solver='cadical', timeout=900, mem_gb=12, checks=['--bounds-check', '--pointer-check'], extra=['--max-field-sensitivity-array-size', '8'],
+             solver='minisat', slice_formula=True, timeout=900, mem_gb=12, checks=['--bounds-check', '--pointer-check'], extra=['--max-field-sensitivity-array-size', '8'],
              replace_calls={'esccpy': 'esccpy_w'}, replace_calls2={'esccpy_real': 'esccpy'}, excludes=['C10-1', 'C10-2', 'C10-3', 'C10-4'],
              enc=['_ical_push', '_ical_pull', 'esccpy'], sym='all %d input bytes' % n, bounds='%d bytes, split after byte %d vs one chunk' % (n, split),
              outside='inputs longer than %d bytes; more than two chunks; the component state machine itself' % n,
